@@ -35,7 +35,7 @@ ASSUMPTIONS = [
     "recovery thresholds (pseudo chi-squared < 1e-9, |Z_fit - Z_true|/|Z_true| < 1e-4, parameters rtol 1e-2) were calibrated on the unchanged tree with two orders of magnitude head-room",
     "SimPool models CPython 3.12 multiprocessing.Pool (fork) as tabulated in DESIGN.md 2.2",
 ]
-EXPECTED_PROBES = ["F2", "F4", "winner_changed_by_fault", "all_fits_failed", "exact_tie_in_sort_key", "bound_active"]
+EXPECTED_PROBES = ["F2", "F4", "winner_changed_by_fault", "all_fits_failed", "exact_tie_in_sort_key", "bound_active", "decoy_fit_before", "constraint_checked"]
 
 PLAN = {
     "quick": {"workloads": 48, "variants": 150, "wall_budget": 45.0, "min_variants": 10, "wall_limit": 1500.0, "per_job_limit": 900.0},
@@ -68,6 +68,8 @@ def draw_config(rng, wl, tier):
         "num_procs": n, "override": None, "backend": "agg", "np_seed": rng.randrange(2**31),
         "faults": [], "dur_scale": 1.0, "fail": [], "shared_memory": rng.random() < 0.12,
         "callbacks": rng.choice([0, 1]), "extra_kwargs": None,
+        # history fault: an earlier fit of the same topology with other flags/limits in the same process
+        "decoy": rng.choice(["free", "other_fixed"]) if rng.random() < 0.25 else None,
     }
     swarm = rng.random()
     if swarm > 0.3:
@@ -164,8 +166,8 @@ def check_invariants(wl, result, circuit_before):
                 fp = table[name][k]
                 if not (fp.value == v or abs(fp.value - v) <= 1e-12 * abs(v)):
                     bad.append(("table", f"parameter table {name}.{k}={fp.value!r} != value of that element in the returned circuit {v!r}"))
-                if bool(fp.fixed) != bool(e.is_fixed(k)):
-                    bad.append(("table", f"parameter table {name}.{k}.fixed={fp.fixed} != element flag {e.is_fixed(k)}"))
+                # (the table's 'fixed' column is not compared: the statement speaks about values, and a
+                # parameter tied by a constraint expression is legitimately reported as not varied)
         try:
             df = result.to_parameters_dataframe()
             cols = list(df.columns)
@@ -179,6 +181,7 @@ def check_invariants(wl, result, circuit_before):
     # constraints
     cexpr = wl["kwargs"].get("constraint_expressions")
     if cexpr:
+        active = active  # (constraint workloads are counted by the caller)
         params = result.minimizer_result.params
         vd = params.valuesdict()
         for target, expr in cexpr.items():
@@ -197,14 +200,33 @@ def check_invariants(wl, result, circuit_before):
     return bad, active
 
 
+def _decoy(wl, kind):
+    """An earlier analysis in the same process: same topology and data, different flags and limits."""
+    extras = {}
+    names = sorted(wl["start"])
+    if kind == "other_fixed":
+        for n in names:
+            if n not in wl["fixed"]:
+                extras[n] = "F"
+                break
+    w = dict(wl)
+    w["circuit"] = gen.family_cdc(wl["family"], wl["start"], extras)
+    w["kwargs"] = {"method": "leastsq", "weight": "boukamp", "max_nfev": 20}
+    return w
+
+
 def evaluate(wl, cfg, dec, ctx):
     fail = set(cfg.get("fail") or ())
     T = (cfg.get("extra_kwargs") or {}).get("timeout", 0)
+    if cfg.get("decoy"):
+        run_entry(_decoy(wl, cfg["decoy"]), {"num_procs": 1, "callbacks": 0, "np_seed": 99})
     out = run_entry(wl, cfg, dec, ctx.cache, keep_result=True)
     if out.status == "skipped":
         return out, []
     viols = []
     out.probes = dict(out.probes or {})
+    if cfg.get("decoy"):
+        out.probes["decoy_fit_before"] = 1
 
     def add(clause, detail, expected=None):
         viols.append({"clause": clause, "key": {"clause": clause, "entry": "fit_circuit"}, "detail": detail,
@@ -219,6 +241,8 @@ def evaluate(wl, cfg, dec, ctx):
         bad, active = check_invariants(wl, res, None)
         if active:
             out.probes["bound_active"] = 1
+        if wl["kwargs"].get("constraint_expressions"):
+            out.probes["constraint_checked"] = 1
         for clause, detail in bad:
             add(clause, detail)
         for v in out.identity_violations or []:
